@@ -481,11 +481,11 @@ macro_rules! int_arith {
         });
     };
 }
-//@ tier=thorough cap=1800 funcs=ExecuteContext::execute_,binop_int,binop bound=operands_any_i64;frame_of_3_slots mem=14
+//@ tier=quick cap=900 funcs=ExecuteContext::execute_,binop_int,binop bound=operands_any_i64;frame_of_3_slots mem=14
 int_arith!(c01_step_AddInt, AddInt, checked_add);
 //@ tier=thorough cap=1800 funcs=ExecuteContext::execute_,binop_int,binop bound=operands_any_i64;frame_of_3_slots mem=14
 int_arith!(c01_step_SubtractInt, SubtractInt, checked_sub);
-//@ tier=thorough cap=1800 funcs=ExecuteContext::execute_,binop_int,binop bound=operands_any_i64;frame_of_3_slots mem=14
+//@ tier=quick cap=900 funcs=ExecuteContext::execute_,binop_int,binop bound=operands_any_i64;frame_of_3_slots mem=14
 int_arith!(c01_step_DivideInt, DivideInt, checked_div);
 
 //@ tier=thorough cap=1800 funcs=ExecuteContext::execute_,binop_int,binop bound=operands_any_i32_sign_extended;frame_of_3_slots mem=14
